@@ -18,7 +18,7 @@
   |-------------------------------------------------------------------|-------------------------------------------|
   | fft/domain.rs `best_fft` three-way switch, `rayon::current_num_threads()` | `fft_switch_arms_agree`, `fft_threads_irrelevant`, `prover_transforms_threads_irrelevant` |
   | fft/domain.rs `par_chunks_mut(2m).for_each(butterfly_chunk)`      | `fft_chunks_schedule_irrelevant`          |
-  | fft/domain.rs `parallel_butterfly_chunk` (pieces of one chunk)    | `fft_switch_arms_agree` (result = serial chunk for every thread count; the pieces are folded in index order in the model — see "not covered") |
+  | fft/domain.rs `parallel_butterfly_chunk` (pieces of one chunk, precomputed seeds) | `fft_pieces_schedule_irrelevant` (any order of the pieces), `fft_switch_arms_agree` (= serial chunk for every thread count) |
   | fft/domain.rs `ifft_in_place` `par_iter_mut().for_each(*= size_inv)`, lagrange `par_iter_mut().zip` | `chunked_map_eq` (index-wise maps) |
   | composer/permutation.rs `witness_map.iter()` (HashMap)            | `sigma_hash_order_irrelevant`             |
   | composer.rs `public_inputs` (HashMap) + `public_input_indexes().sort()` | `public_inputs_sorted`, `pi_order_irrelevant` |
@@ -37,18 +37,22 @@
   * `fft_chunks_schedule_irrelevant` needs `cnt·2m ≤ a.size` (the chunks lie inside the array —
     true in `bestFft`, where `cnt = n / (2m)`).
   * `compile` / `prove` of the model have NO `threads` and NO visiting-order parameter (they call
-    the transforms with the default `threads := 1` and `sigmaMaps` in index order).  For the
-    compiler this file uses `Det.compileWith threads order` — the text of `compile` with the thread
-    count passed to every transform and `Perm.sigmaMapsOrder … order` in place of `sigmaMaps` — and
-    proves `compileWith threads order = compile`.  For `prove` no such copy is made: the statement
-    is on the transform / loop level (`prover_transforms_threads_irrelevant` covers every transform
-    `prove` calls, since all its domains come from `Domain.new?`).
-  * NOT covered: (a) the order in which the *pieces* inside one `parallel_butterfly_chunk` run (the
-    model folds them in index order; they touch disjoint index ranges exactly like the chunks of
-    `fft_chunks_schedule_irrelevant`, but that commutation is not proved here); (b) the verifier-side
-    `par_iter().sum()` of G1 points in `kzg10/proof.rs` (group-level, outside the scalar model);
-    (c) that rayon's `collect` / `sum` really are "concatenate in index order" / "some reduction
-    tree" — this is the modelling assumption behind `chunked_map_eq` / `parallel_sum_eq`.
+    the transforms with the default `threads := 1` and `sigmaMaps` in index order).  This file
+    therefore uses `Det.compileWith threads order` — the text of `compile` with the thread count
+    passed to every transform and `Perm.sigmaMapsOrder … order` in place of `sigmaMaps` — and
+    `Det.proveWith threads` — the text of `prove` with the thread count passed to every transform
+    (including those inside `blindPoly` / `cosetEvals`: `Det.blindPolyWith`, `Det.cosetEvalsWith`) —
+    and proves `compileWith threads order = compile`, `proveWith threads = prove` for all
+    `threads ≥ 1` and all permutations `order`.  (The copies are ordinary definitions in
+    `Plonk/Proofs/Determinism.lean`; their proofs name the auto-generated matchers of the two
+    copies, `prove_matchers_eq` / `cs_matcher_eq`, which is loud — not silent — if the model text
+    changes.)
+  * `fft_pieces_schedule_irrelevant` needs `lo + 2m ≤ a.size` (the chunk lies inside the array).
+  * NOT covered: (a) the verifier-side `par_iter().sum()` of G1 points in `kzg10/proof.rs`
+    (group-level, outside the scalar model); (b) that rayon's `collect` / `sum` really are
+    "concatenate in index order" / "some reduction tree over consecutive pieces", and that a
+    `for_each` over disjoint `&mut` chunks is "run every chunk once in some order" — these are the
+    modelling assumptions behind `chunked_map_eq` / `parallel_sum_eq` / the two FFT schedule theorems.
 -/
 import Plonk.Props.C19Fft
 import Plonk.Proofs.Determinism
@@ -116,6 +120,26 @@ theorem fft_chunks_schedule_irrelevant (a : Array Nat) (m wm cnt : Nat) (hb : cn
 /-- non-vacuity: 4 chunks of length 2 in an array of 8, visited in the order 2,0,3,1 -/
 example : 4 * (2 * 1) ≤ (#[1, 2, 3, 4, 5, 6, 7, 8] : Array Nat).size ∧
     [2, 0, 3, 1].Perm (List.range 4) := by decide
+
+/-- **the pieces of one `parallel_butterfly_chunk`** (`left.par_chunks_mut(range_len).zip(right…)
+    .zip(seeds).for_each(butterfly_range)`, the seeds being computed sequentially beforehand —
+    `Det.pieceSeed`): processing the pieces in ANY order gives the model's `parallelButterflyChunk`,
+    i.e. (by `fft_switch_arms_agree`) the serial `butterflyChunk` -/
+theorem fft_pieces_schedule_irrelevant (a : Array Nat) (lo m wm threads : Nat) (ht : 1 ≤ threads)
+    (hm : m < 2 ^ 256) (hb : lo + 2 * m ≤ a.size) (order : List Nat)
+    (hp : order.Perm (List.range (divCeil m (divCeil m threads)))) :
+    order.foldl (fun a r => butterflyRange a lo m (r * divCeil m threads)
+        (min (divCeil m threads) (m - r * divCeil m threads)) wm
+        (pieceSeed wm (divCeil m threads) r)) a
+      = parallelButterflyChunk a lo m wm threads ∧
+    parallelButterflyChunk a lo m wm threads = butterflyChunk a lo m wm :=
+  ⟨pieces_order_irrelevant a lo m wm threads ht hb order hp,
+   parallelButterflyChunk_eq_butterflyChunk a lo m wm threads ht hm⟩
+
+/-- non-vacuity: a half of 8 butterflies on 3 threads is cut into 3 pieces (3 + 3 + 2), visited in
+    the order 2, 0, 1 -/
+example : (1 : Nat) ≤ 3 ∧ (8 : Nat) < 2 ^ 256 ∧ 0 + 2 * 8 ≤ (Array.replicate 16 (1 : Nat)).size ∧
+    [2, 0, 1].Perm (List.range (divCeil 8 (divCeil 8 3))) := by decide
 
 /-- **every transform the compiler and the prover call**: their domains come from `Domain.new?`,
     and on such a domain each of the four transforms, run with any thread count, equals the call the
@@ -403,9 +427,12 @@ theorem serial_equals_parallel_build (threads : Nat) (ht : 1 ≤ threads) :
             (((serialFft (resize (v.map (· % R)) d.size).toArray d.groupGenInv d.logSize).toList).map
               (fmul · d.sizeInv)) d.generatorInv) ∧
     (∀ (srs : SRS) (srsLen : Nat) (label : List Nat) (c : Composer),
-      compileWith threads (List.range c.wit.size) srs srsLen label c = compile srs srsLen label c) := by
+      compileWith threads (List.range c.wit.size) srs srsLen label c = compile srs srsLen label c) ∧
+    (∀ (k : PKey) (c : Composer) (ds : List Nat) (v3 : Bool),
+      proveWith threads k c ds v3 = prove k c ds v3) := by
   refine ⟨fun a omega logN hl => bestFft_eq_serialFft a omega logN threads ht hl, ?_,
-    fun srs srsLen label c => compileWith_eq threads ht _ srs srsLen label c (List.Perm.refl _)⟩
+    fun srs srsLen label c => compileWith_eq threads ht _ srs srsLen label c (List.Perm.refl _),
+    fun k c ds v3 => proveWith_eq threads ht k c ds v3⟩
   intro m d hd v
   have hl : d.logSize ≤ 256 := by have := (Domain.new?_wf m d hd).2; omega
   refine ⟨Domain.fft_eq_serial d hl v threads ht, Domain.ifft_eq_serial d hl v threads ht, ?_, ?_⟩
